@@ -56,7 +56,9 @@ fn gen_val(t: &mut Tape, ty: &Ty) -> Val {
     }
 }
 fn gen_ty(t: &mut Tape) -> Ty {
-    match t.weighted(&[5, 4, 2, 3, 2, 1, 1, 1, 1]) {
+    match t.weighted(&[5, 4, 2, 3, 2, 1, 1, 1, 1, 2, 1]) {
+        9 => Ty::Tup(vec![Ty::Tup(vec![Ty::Str, Ty::Str]), Ty::Int]),
+        10 => Ty::Tup(vec![Ty::Int, Ty::Tup(vec![Ty::Str, Ty::Str, Ty::Int])]),
         0 => Ty::Int,
         1 => Ty::Str,
         2 => Ty::Tup(vec![Ty::Int, Ty::Int]),
@@ -145,24 +147,38 @@ fn gen_case(t: &mut Tape) -> Case {
             universe.push(v);
         }
     }
-    // tuples with two adjacent string components: plant a pair of distinct keys that print the same text
-    if let Ty::Tup(ts) = &elem {
-        if let Some(p) = (0..ts.len().saturating_sub(1)).find(|i| ts[*i] == Ty::Str && ts[*i + 1] == Ty::Str) {
-            if t.chance(1, 2) {
-                let (a, b, c) = (gen_str(t), gen_str(t), gen_str(t));
-                let base = gen_val(t, &elem);
-                if let Val::Tup(xs) = base {
+    // tuples with two adjacent string components (at the top or inside a nested tuple): plant a pair of distinct keys
+    // that print the same text
+    fn colliding_pair(ty: &Ty, base: &Val, a: &str, b: &str, c: &str) -> Option<(Val, Val)> {
+        if let (Ty::Tup(ts), Val::Tup(xs)) = (ty, base) {
+            if let Some(p) = (0..ts.len().saturating_sub(1)).find(|i| ts[*i] == Ty::Str && ts[*i + 1] == Ty::Str) {
+                let mut k1 = xs.clone();
+                let mut k2 = xs.clone();
+                k1[p] = Val::Str(format!("{}, {}", a, b));
+                k1[p + 1] = Val::Str(c.to_string());
+                k2[p] = Val::Str(a.to_string());
+                k2[p + 1] = Val::Str(format!("{}, {}", b, c));
+                return Some((Val::Tup(k1), Val::Tup(k2)));
+            }
+            for (i, (t1, x1)) in ts.iter().zip(xs.iter()).enumerate() {
+                if let Some((u, v)) = colliding_pair(t1, x1, a, b, c) {
                     let mut k1 = xs.clone();
-                    let mut k2 = xs;
-                    k1[p] = Val::Str(format!("{}, {}", a, b));
-                    k1[p + 1] = Val::Str(c.clone());
-                    k2[p] = Val::Str(a);
-                    k2[p + 1] = Val::Str(format!("{}, {}", b, c));
-                    for k in [Val::Tup(k1), Val::Tup(k2)] {
-                        if !universe.contains(&k) {
-                            universe.push(k);
-                        }
-                    }
+                    let mut k2 = xs.clone();
+                    k1[i] = u;
+                    k2[i] = v;
+                    return Some((Val::Tup(k1), Val::Tup(k2)));
+                }
+            }
+        }
+        None
+    }
+    if matches!(&elem, Ty::Tup(_)) && t.chance(1, 2) {
+        let (a, b, c) = (gen_str(t), gen_str(t), gen_str(t));
+        let base = gen_val(t, &elem);
+        if let Some((k1, k2)) = colliding_pair(&elem, &base, &a, &b, &c) {
+            for k in [k1, k2] {
+                if !universe.contains(&k) {
+                    universe.push(k);
                 }
             }
         }
